@@ -8,7 +8,7 @@ from tie import framework as fw
 from tie.framework import g_bool, g_list, g_pair, g_str, g_Z, run_impl_parallel
 
 PROP = "C05"
-IMPORTS = ("From JV Require Import Lib.Base Lib.Regex Model.TyVal Model.Scalar Model.Ty Model.TyLoader "
+IMPORTS = ("From JV Require Import Lib.Base Lib.Regex Model.TyVal Model.Scalar Model.Ty Model.TyLoader Model.C05History "
            "Model.C05Channels Spec.C05Spec Corr.C05Judge.")
 MODES = ["yaml", "json", "jsonnet", "omegaconf"]
 EXHAUSTIVE = {"quick": False, "thorough": False}
@@ -23,7 +23,16 @@ RULE = ("one case = one logical setting for one key: a type hint from the gramma
         "--cfg FILE, --cfg=STRING, PREFIX_CFG=STRING, default_config_files — all of them under parser_mode yaml, a reduced "
         "set (argv, env, object, parse_string, --cfg FILE) under json / jsonnet / omegaconf (quick: yaml + one or all other "
         "modes per case; thorough: all four). Every look-alike string is run at str, Optional[str], List[str] and "
-        "Dict[str,str]. distinct = distinct (type, value, key, prefix, spelling, modes); non-trivial = >= 8 channel runs")
+        "Dict[str,str]. 30% of the cases run five yaml-mode channels once more AFTER another parser's parse_args was rejected "
+        "while applying a --cfg value (the key itself set by an accepted option before). History family (60 quick / 400 "
+        "thorough): a parser with dataclass, List[dataclass], Dict[str,dataclass], Optional[dataclass] and subclass-typed "
+        "keys — types whose parsing consults the previous value of the key; settings with missing fields / without "
+        "class_path through parse_object, parse_string, parse_path, --cfg string, --cfg file and dotted options of fresh "
+        "parsers, first in a clean context, then after an earlier parse_args of another parser: 1-4 accepted options followed "
+        "by a rejected --cfg (wrong type, unparsable, unknown class; string or file), an accepted --cfg, accepted-then-"
+        "rejected, a rejected option, options after it; each case runs in its own contextvars.copy_context(). "
+        "distinct = distinct (type, value, key, prefix, spelling, modes) resp. (settings, earlier call); non-trivial = >= 8 "
+        "channel runs")
 TRUSTED = [
     "Coq 8.16.1 kernel + vm_compute",
     "tie/impl/c05_channels.py (builds the real parser, runs every channel, canonicalises stored values: sets sorted, floats by "
@@ -44,6 +53,9 @@ ASSUMPTIONS = [
     "a string is 'unambiguous text' only at a str position; strings below Any, non-strings where str/Any could take the text, "
     "and ${...} strings under omegaconf are outside the property's quantifier (class 5: nothing demanded)",
     "dict settings are generated with sorted keys (jsonnet re-renders objects sorted); sets only of int or str",
+    "history family: the dataclass / subclass types are opaque to the model — a channel's answer after an earlier call is "
+    "predicted from its clean-context answer and the state of previous_config computed by Model/C05History.v; other process "
+    "state (parser-object state is C09's) is excluded by using a fresh parser per call",
     "the text '--' is not used as a value (argparse removes it) and bare NoneType is not used as a type hint",
 ]
 FINDING_CLASSES = {1: "none-unchecked", 3: "literal-eq-channels", 4: "jsonnet-numbers"}   # 2 (clash-key-unadapted) repaired
@@ -347,6 +359,56 @@ def known_cases(rng):
     }
 
 
+# ---- history family (keys whose parsing consults the previous value of the key) ---------------------------------------
+H_OPT = [{"name": "adam"}, {"lr": 3}, {"lr": 2, "name": "x"}, {}]
+H_OPTS = [[{"name": "adam"}], [{"lr": 2}, {"name": "b"}], [], [{"lr": 7, "name": "z"}], [{}, {"name": "c"}]]
+H_OMAP = [{"a": {"name": "adam"}}, {"a": {"lr": 2}, "b": {}}]
+H_OOPT = [{"name": "q"}, None, {"lr": 9}]
+H_CAL = [{"init_args": {"firstweekday": 2}}, {"class_path": "calendar.TextCalendar"},
+         {"class_path": "calendar.HTMLCalendar", "init_args": {"firstweekday": 4}},
+         {"class_path": "TextCalendar", "init_args": {"firstweekday": 1}}, {"init_args": {"firstweekday": 0}}]
+P_OPTS = ['--opts=[{"lr": 5}]', '--opts=[{"lr": 5, "name": "p"}, {"lr": 6}]', "--cal=calendar.TextCalendar",
+          '--cal={"class_path": "calendar.HTMLCalendar", "init_args": {"firstweekday": 6}}', "--opt.lr=8",
+          '--omap={"a": {"lr": 6}}', '--oopt={"lr": 4}', "--steps=5"]
+P_BAD_CFG = ['{"steps": "not-an-int"}', "steps: [1, 2]\n", '{"opts": [{"lr": "x"}]}', "{a: [", '{"cal": {"class_path": "calendar.Nope"}}',
+             '{"opt": {"lr": []}}']
+P_OK_CFG = ['{"steps": 4}', '{"opts": [{"lr": 9}]}', '{"cal": {"class_path": "calendar.TextCalendar"}}']   # JSON: accepted under every mode
+
+
+def gen_hist(rng, mode):
+    """settings + the argv of another parser's earlier parse_args call (accepted options, then mostly a --cfg whose value
+    is rejected; also accepted --cfg values, a rejected option, and nothing after the rejected --cfg)"""
+    s = {}
+    if rng.random() < 0.5:
+        s["opt"] = rng.choice(H_OPT)
+    if rng.random() < 0.75:
+        s["opts"] = rng.choice(H_OPTS)
+    if rng.random() < 0.3:
+        s["omap"] = rng.choice(H_OMAP)
+    if rng.random() < 0.3:
+        s["oopt"] = rng.choice(H_OOPT)
+    if rng.random() < 0.75:
+        s["cal"] = rng.choice(H_CAL)
+    if rng.random() < 0.6 or not s:
+        s["steps"] = rng.randint(0, 9)
+    s = {k: v for k, v in s.items() if not (k == "opt" and v == {})}
+    poison = [["opt", o] for o in rng.sample(P_OPTS, rng.randint(1, 4))]
+    seen = set()
+    poison = [p for p in poison if not (p[1].split("=")[0].split(".")[0] in seen or seen.add(p[1].split("=")[0].split(".")[0]))]
+    r = rng.random()
+    if r < 0.7:
+        poison.append([rng.choice(["cfg", "cfgfile"]), rng.choice(P_BAD_CFG), False])
+    elif r < 0.85:
+        poison.append([rng.choice(["cfg", "cfgfile"]), rng.choice(P_OK_CFG), True])
+        if rng.random() < 0.5:
+            poison.append([rng.choice(["cfg", "cfgfile"]), rng.choice(P_BAD_CFG), False])
+    else:
+        poison.append(["badopt", "--steps=many"])
+    if rng.random() < 0.2:
+        poison.append(["opt", "--steps=6"])
+    return {"kind": "hist", "mode": mode, "poison_mode": rng.choice(MODES[:2]), "settings": s, "poison": poison}
+
+
 def generate(rng, tier):
     ensure_judge()
     cases = list(known_cases(rng).values())
@@ -371,7 +433,11 @@ def generate(rng, tier):
         c = make_case(rng, t, v, modes=None if tier == "thorough" or rng.random() < 0.35 else ["yaml", rng.choice(MODES[1:])])
         if tier == "thorough" and rng.random() < 0.25:
             c["full"] = True   # every channel variant under every mode, not only under yaml
+        if rng.random() < 0.3:
+            c["after"] = rng.choice(['{"other": "not-an-int"}', "other: [1]\n", "{a: ["])
         cases.append(c)
+    for _ in range(60 if tier == "quick" else 400):
+        cases.append(gen_hist(rng, rng.choice(MODES)))
     return cases
 
 
@@ -505,7 +571,10 @@ def observations(obs):
     out, seen = [], set()
     for name, oc in obs["chan"].items():
         mode, rest = name.split("/", 1)
+        if rest == "poison":
+            continue   # the rejected call of the other parser: not a channel of this setting
         ch, _, doc = rest.partition(":")
+        ch = ch.replace("@after", "")
         loaded = obs["loaded"].get(mode + "/" + doc) if doc else None
         item = (mode == "yaml", CHANNELS[ch], json.dumps(loaded), json.dumps(oc))
         if item not in seen:
@@ -528,7 +597,22 @@ def json_num_class(text):
     return 1 if isinstance(x, int) else 2 if isinstance(x, float) else 0
 
 
+def term_hist(case, obs):
+    script = []
+    for item in case["poison"]:
+        script.append("POpt" if item[0] == "opt" else "PBadOpt" if item[0] == "badopt" else "(PCfg %s)" % g_bool(item[2]))
+    hobs = ["{| h_clean := %s; h_after := %s |}" % (g_obs(c), g_obs(a)) for c, a in obs["hist"].values()]
+    return ("History {| h_script := %s; h_rejected := %s; h_obs := %s |}"
+            % (g_list(script, "pitem"), g_bool(obs["poison"] == "rejected"), g_list(hobs, "hob")))
+
+
 def term(case, obs):
+    if case.get("kind") == "hist":
+        return term_hist(case, obs)
+    return "Setting (%s)" % term_setting(case, obs)
+
+
+def term_setting(case, obs):
     obl = ["{| o_yaml := %s; o_chan := %s; o_loaded := %s; o_obs := %s |}"
            % (g_bool(y), ch, "None" if ld is None else "(Some %s)" % g_lres(ld), g_obs(oc)) for y, ch, ld, oc in observations(obs)]
     oracle = [g_pair(g_str(s), g_lres(a)) for s, a in obs["oracle"]]
@@ -541,6 +625,8 @@ def term(case, obs):
 # evidence helpers
 # ---------------------------------------------------------------------------------------------------------------------
 def nontrivial_key(case, obs):
+    if case.get("kind") == "hist":
+        return json.dumps(case, sort_keys=True)
     if len(obs["chan"]) < 8:
         return None
     return json.dumps([case["ty"], case["val"], case["key"], case["prefix"], case["hyphen"], case["modes"]], sort_keys=True)
@@ -557,6 +643,9 @@ def vkind(v):
 
 
 def category(case, obs):
+    if case.get("kind") == "hist":
+        same = all(c == a for c, a in obs["hist"].values())
+        return "history: %d-item earlier call %s / %s" % (len(case["poison"]), obs["poison"], "same answers after" if same else "answers changed")
     outs = {json.dumps(o) for o in obs["chan"].values()}
     kinds = {o[0] for o in obs["chan"].values()}
     how = "all accept" if kinds == {"ok"} and len(outs) == 1 else "all reject" if kinds == {"rejected"} else "channels differ"
@@ -564,6 +653,13 @@ def category(case, obs):
 
 
 def describe(case, obs):
+    if case.get("kind") == "hist":
+        return {"parser": "opt: dataclass(lr: int = 1, name: str = 'sgd'), opts: List[it], omap: Dict[str, it], oopt: Optional[it], "
+                          "cal: calendar.Calendar (subclass type), steps: int = 3, cfg: ActionConfigFile; a fresh parser per call",
+                "parser_mode": case["mode"], "settings": case["settings"],
+                "earlier parse_args call on another parser (mode %s)" % case.get("poison_mode"): obs.get("poison_argv"),
+                "that call was": obs["poison"],
+                "channel -> [answer in a clean state, answer after that call]": obs["hist"]}
     groups = {}
     for name, oc in obs["chan"].items():
         groups.setdefault(json.dumps(oc), []).append(name)
@@ -575,6 +671,14 @@ def describe(case, obs):
 
 
 def shrink(case):
+    if case.get("kind") == "hist":
+        for i in range(len(case["poison"])):
+            yield dict(case, poison=case["poison"][:i] + case["poison"][i + 1:])
+        for k in case["settings"]:
+            if len(case["settings"]) > 1:
+                yield dict(case, settings={a: b for a, b in case["settings"].items() if a != k})
+        return
+
     def redo(c):
         c = dict(c)
         c["text"] = top_text(c["val"])
@@ -603,7 +707,11 @@ def shrink(case):
 
 
 META = {
-    "level_text": "Four theorems (coq/Properties/C05.v, closed under the global context). C05_channels_agree: for ANY type check, "
+    "level_text": "Five theorems (coq/Properties/C05.v, closed under the global context). C05_history_independent: after any "
+                  "history of parse_args calls (accepted, rejected by an option, rejected while a --cfg value is applied) the "
+                  "previous_config ContextVar that parse_string / parse_path read is what it was before, so an earlier call "
+                  "cannot make those two channels answer differently from the others (model of previous_config_context with "
+                  "its try/finally; without it a counter-example is proved). C05_channels_agree: for ANY type check, "
                   "type hint, text and value — if the check takes the text for what it takes the value for, leaves its own "
                   "result alone and None is only given where admitted (guard, the same Gallina function the run evaluates per "
                   "case), then environment, object / config-document and config-via-environment channels store exactly what the "
